@@ -43,6 +43,15 @@ def run(ctx):
     clocale = {"LC_ALL": "C", "LANG": "C", "PYTHONCOERCECLOCALE": "0", "PYTHONUTF8": "0", "_DROP_PYTHONPATH": "1"}
     jobs.append(("python", "thread", [present[vers[-1]][0], "-S"], ctx.seed, False, clocale))
     jobs.append(("via", "thread", [present[vers[0]][0], "-S"], ctx.seed, False, clocale))
+    # a plain popen worker started without the initiator's PYTHONPATH still runs the initiator's copy (its directory is sent along)
+    jobs.append(("popen", "thread", None, ctx.seed, False, {"_DROP_PYTHONPATH": "1"}))
+    # ssh= and vagrant_ssh= through stand-in executables that hand the remote command line to /bin/sh like sshd does
+    from real import matrix as _matrix
+
+    standins = _matrix.make_remote_shell_standins(os.path.join(ctx.scratch, "bin"))
+    path = {"PATH": standins + os.pathsep + os.environ.get("PATH", "")}
+    jobs.append(("ssh", "thread", present[vers[-1]], ctx.seed, False, path))
+    jobs.append(("vagrant", "thread", present[vers[0]], ctx.seed, False, path))
     ctl_jobs = [("thread", present[vers[-1]])] + ([("main_thread_only", present[vers[0]])] if not ctx.quick else [])
     res, ctl = tc.run_matrix(jobs, ctl_jobs)
     base = res[0]
@@ -51,7 +60,7 @@ def run(ctx):
     cases, metas = [], []
     for job, rr in zip(jobs[1:], res[1:]):
         cases.append({"k": "transcript", "base": base["T"], "other": rr["T"], "transport": job[0], "execmodel": job[1], "isolated": True, "err": rr["err"]})
-        metas.append({"transport": job[0], "execmodel": job[1], "python": job[2][0].split("/")[-3], "env": job[5]})
+        metas.append({"transport": job[0], "execmodel": job[1], "python": job[2][0].split("/")[-3] if job[2] else "sys.executable", "env": {k: v for k, v in job[5].items() if k != "PATH"}})
     for j, c in zip(ctl_jobs, ctl):
         cases.append({"k": "control", "isolated": True, **c})
         metas.append({"control": j[0], "python": j[1][0].split("/")[-3]})
@@ -82,6 +91,6 @@ def run(ctx):
         "samples": [metas[0], base["T"][:2]], "matrix": metas, "verdict_histogram": hist,
         "shipped_units": {u["name"]: len(u["needs"]) for u in proj["units"]},
     })
-    ctx.assumptions += ["ssh / vagrant transports use the same exec-over-pipe bootstrap as popen//python= and are not run (no ssh server in the sandbox)",
+    ctx.assumptions += ["no ssh server in the sandbox: ssh= and vagrant_ssh= gateways run through stand-in `ssh` / `vagrant` executables that pass the remote command line to /bin/sh as sshd would",
                         "references only reached on paths no program drives are seen by the AST projection (imports) but not executed"]
     return "model_checking"
